@@ -317,13 +317,21 @@ func (s *sysRun) workFn(kind string) *def.WorkFn {
 		switch kind {
 		case "err":
 			return errors.New("boom")
+		case "dl":
+			// the work function's own time-out: an ordinary error as far as the scheduler is concerned
+			return context.DeadlineExceeded
 		case "panic":
+			if len(id)%2 == 0 {
+				panic(panicString("boom")) // a panic value that is neither string nor error
+			}
 			panic("boom")
 		}
 		return nil
 	}
 	return &fn
 }
+
+type panicString string
 
 func newSysRun(r *rand.Rand, stats map[string]int, faults bool) *sysRun {
 	s := &sysRun{r: r, stats: stats, now: cq.Epoch, gates: map[string]chan struct{}{}, workOf: map[string]string{},
@@ -338,7 +346,7 @@ func newSysRun(r *rand.Rand, stats map[string]int, faults bool) *sysRun {
 	ht.VerifSetClock(s.clock)
 	s.obs = repository.New(fr, ht)
 	s.proxy = &sproxy{inner: s.obs, faulty: fr, calls: make(chan *callReq), fireCh: make(chan time.Time)}
-	reg := mapRegistry{"ok": s.workFn("ok"), "err": s.workFn("err"), "panic": s.workFn("panic"), "block": s.workFn("block")}
+	reg := mapRegistry{"ok": s.workFn("ok"), "err": s.workFn("err"), "panic": s.workFn("panic"), "block": s.workFn("block"), "dl": s.workFn("dl")}
 	s.disp = workerpool.NewWorkerPoolDispatcher(reg)
 	s.disp.WorkerPool.Add(16)
 	s.sched = scheduler.NewScheduler(s.proxy, s.disp)
@@ -360,7 +368,7 @@ func (s *sysRun) userOp() {
 	switch x := s.r.Intn(10); {
 	case x < 5 || len(s.known) == 0:
 		var p def.TaskUpdateParam
-		w := []string{"ok", "ok", "ok", "err", "panic", "nope", "block"}[s.r.Intn(7)]
+		w := []string{"ok", "ok", "ok", "err", "panic", "nope", "block", "dl"}[s.r.Intn(8)]
 		p.WorkId = option.Some(w)
 		offs := []time.Duration{0, time.Second, 5 * time.Second, 5 * time.Second, 10 * time.Second, 60 * time.Second, -time.Second}
 		p.ScheduledAt = option.Some(s.now.Add(offs[s.r.Intn(len(offs))]))
@@ -564,7 +572,8 @@ func (s *sysRun) finishOne() bool {
 	id := ids[s.r.Intn(len(ids))]
 	_ = best
 	w := s.workOf[id]
-	out := map[string]string{"ok": "ONil", "err": "(OErr \"boom\")", "panic": "OPanic", "block": "OCanceled"}[w]
+	out := map[string]string{"ok": "ONil", "err": "(OErr \"boom\")", "panic": "OPanic", "block": "OCanceled",
+		"dl": "(OErr \"context deadline exceeded\")"}[w]
 	if w == "block" {
 		s.stepCancel[id]()
 	} else {
